@@ -9,9 +9,13 @@ META = {
             'inventories/amounts); one evaluation = one accepted allocation '
             'write judged against the table dump; distinct = (route, '
             '#consumers, #providers, utilisation class before/after in '
-            '{noinv, empty, partial, exact, over}, unit-constraint class)'
+            '{noinv, empty, partial, exact, over}, unit-constraint class); '
+            'plus histories in which half of the writes meet one injected '
+            'database fault (incl. deadlocks with rollback by the DBMS): an '
+            'allocation write that is retried or fails never leaves new '
+            'over-commitment or an off-unit amount'
             ' plus a concurrent part: the C05-C07 scenario catalogue (and provider-tree races) run under the transaction-granularity scheduler, the same oracle evaluated on every committed state / committing step of every explored interleaving',
-    'floors': {'concurrent_schedules': 100,
+    'floors': {'concurrent_schedules': 100, 'faulted_requests': 100,
                'accepted_multi_consumer_post': 1,
                'accepted_reshaper_with_allocs': 1,
                'exact_fit_acceptances': 1,
@@ -37,6 +41,7 @@ def plan(tier, seed, scale):
     shards = histrun.plan_seeds(tier, seed, scale, 320, 6400, 20 if
                               tier == 'quick' else 100,
                               extra={'steps': 60 if tier == 'quick' else 80})
+    histrun.plan_faulted(shards, tier, seed, scale)
     n = max(1, int(len(CONC) * min(scale, 1)))
     for sh in conc.plan_scenarios(n, tier, seed, per=max(1, (n + 7) // 8)):
         sh['conc'] = True
@@ -48,9 +53,52 @@ def conc_shard(spec, res):
     conc.run_invariants('C01', CONC, spec, res, per_step=monitors.c01)
 
 
+def fault_shard(spec, res):
+    """an allocation write that meets a database fault (and is retried, or
+    fails) never leaves a pair over-committed that was not before, nor a
+    held amount off its unit constraints"""
+    def make_gen(rng):
+        gen = HistoryGen(rng, Names(rng), WEIGHTS)
+        gen.dup_list = True
+        return gen
+
+    def problems(d, before, req, resp):
+        if not monitors.is_alloc_write(req):
+            return []
+        out = []
+        ub = before.usage()
+        for pair, used in d.usage().items():
+            inv = d.inventories.get(pair)
+            if inv is None:
+                out.append(('usage-without-inventory-after-fault',
+                            '%s/%s' % pair))
+                continue
+            was = before.inventories.get(pair)
+            if monitors.capacity_cmp(inv, used) == 'over' and not (
+                    was is not None and
+                    monitors.capacity_cmp(was, ub.get(pair, 0)) == 'over'):
+                out.append(('overcommit-after-fault', '%s/%s used %d' % (
+                    pair[0], pair[1], used)))
+        changed = {k for k, a in d.allocs.items()
+                   if before.allocs.get(k) != a}
+        for (c, rp, rc) in changed:
+            a = d.allocs[(c, rp, rc)]
+            inv = d.inventories.get((rp, rc))
+            if inv is not None and a > 0 and (
+                    a < inv['min_unit'] or a > inv['max_unit'] or
+                    a % inv['step_size']):
+                out.append(('unit-constraint-after-fault',
+                            '%s holds %d on %s/%s' % (c, a, rp, rc)))
+        return out
+    histrun.run_faulted_histories('C01', spec, res, make_gen, problems,
+                                  kinds=('DL', 'DL', 'DLR', 'ERR', 'CONN'))
+
+
 def run_shard(spec, res):
     if spec.get('conc'):
         return conc_shard(spec, res)
+    if spec.get('faulted'):
+        return fault_shard(spec, res)
     svc = histrun.Service()
     try:
         for i in range(spec['first'], spec['first'] + spec['count']):
